@@ -70,3 +70,10 @@ Definition agree_egmap (auto_group spline : bool) (header_written : bool) (dfr :
      | None, None => true
      | _, _ => false
      end.
+
+(** ** column selection of the table readers: in every conditional the column addressed by name, the variable whose type is
+    tested and the column addressed by position are one and the same argument; in the genetic-map readers the variable
+    assigned is the field the argument is named after *)
+Definition col_row_ok (r : String.string * String.string * String.string * String.string * String.string * bool) : bool :=
+  let '(_, tgt, by_name, tested, by_pos, named) := r in
+  String.eqb by_name tested && String.eqb tested by_pos && (negb named || String.eqb by_name (tgt ++ "_col")%string).
